@@ -167,10 +167,32 @@ func main() {
 				cl.c.Write(cmd("GET", "big"))
 			})
 		}
+		// a crowd of connections that hang up on their own while the termination walks the client table:
+		// a disconnect processed during the walk must not stop it
+		var leaving []*client
+		crowd := 60 + r.Intn(90)
+		for i := 0; i < crowd; i++ {
+			if cl, err := dial(port); err == nil {
+				if i%8 == 0 {
+					cl.roundtrip(10*time.Second, "PING")
+				}
+				leaving = append(leaving, cl)
+			}
+		}
+		note(fmt.Sprintf("%d connections that close themselves during Close", len(leaving)))
 		time.Sleep(time.Duration(5+r.Intn(30)) * time.Millisecond)
 		// terminate
 		done := make(chan struct{})
 		t0 := time.Now()
+		pause := time.Duration(5+r.Intn(30)) * time.Microsecond
+		go func() {
+			for i, cl := range leaving {
+				cl.c.Close()
+				if i%4 == 0 {
+					time.Sleep(pause)
+				}
+			}
+		}()
 		go func() { emu.Close(); close(done) }()
 		select {
 		case <-done:
